@@ -504,7 +504,9 @@ func (r *Runner) lockPartyMain(p *lockParty, ops []Op, isPeer bool, peer *peerPr
 						if e.Kind == vos.KMkdir || strings.HasSuffix(e.Path, ".lock") {
 							continue
 						}
-						if e.Task == me && e.Kind.Mutating() && e.Kind != vos.KImport {
+						// (stores through a mapping are journalled by whichever task makes the next file call: an mwrite
+						// entry says nothing about who wrote; mapping or truncating a file would show up as such)
+						if e.Task == me && e.Kind.Mutating() && e.Kind != vos.KImport && e.Kind != vos.KMWrite {
 							p.fail(prop, "rejected-open-touched-directory", "", "a rejected Open performed %s", e.String())
 							return
 						}
@@ -688,6 +690,11 @@ func genLock(c *Case, rng *vrt.Rand, tier string) func(r *Runner, i int) *Op {
 				c.Clients[ci] = append(c.Clients[ci], Op{K: "yield"})
 			}
 		}
+	}
+	if !janitor && rng.Chance(0.04) {
+		// the mapped back-end (a refused Open must not pre-extend, map or truncate anything either). Not next to a
+		// janitor: rewriting a file that a holder has mapped would kill the process with SIGBUS.
+		c.Cfg.IO = 1
 	}
 	if janitor {
 		// a janitor damages and repairs the older data file: Opens in between fail after taking the lock
